@@ -104,6 +104,8 @@ CHECKS = {
         "subs": [
             {"name": "values", "bin": "c05_values", "variant": "asan",
              "quick": {"n": 3200, "size": 100}, "thorough": {"n": 200000, "size": 150}},
+            {"name": "cancel-values", "bin": "c05_cancel", "variant": "asan",
+             "quick": {"n": 3200, "size": 100}, "thorough": {"n": 100000, "size": 150}},
         ],
         "assumptions": ["the lazily/eagerly observed twin runs are compared as solids (Status, emptiness, volume) and only for values that do not depend on a triangulation (no Warp/Refine/Smooth/Simplify/float re-import upstream)"],
     },
@@ -173,6 +175,15 @@ CHECKS = {
                         "error codes that no C entry point can produce (PropertiesWrongLength, MergeVectorsDifferentLengths, TransformWrongLength, FaceIDWrongLength, ResultTooLarge) are not reached; the others are produced by malformed arrays, bad constructor arguments and cancelled contexts",
                         "both twins run in one process on the serial backend; mesh IDs come from one global counter and are compared up to relabelling by first appearance"],
     },
+    "C06": {
+        "subs": [
+            {"name": "threads", "bin": "c06_threads", "variant": "tsan", "schedule_dependent": True,
+             "quick": {"n": 4800, "size": 100, "procs": 8}, "thorough": {"n": 120000, "size": 150, "procs": 8}},
+        ],
+        "assumptions": ["the build uses the serial backend (MANIFOLD_PAR=-1) so that the only threads are the client threads and every lock/atomic of the library is instrumented; TBB-internal synchronisation is not visible to ThreadSanitizer and is covered by C13/C04 instead",
+                        "schedules are those the OS produces for 2-8 real threads started at a barrier with generated spin delays (not enumerated); a race report is sound but its absence is not a proof",
+                        "values are compared with 9+N sampled op-level serial orders and accepted when any of them produced the same value; a mismatch must reproduce in 3/3 replays to be reported"],
+    },
 }
 
 PBT = "property-based testing (rapidcheck byte-tape generators, shrinking, replay files)"
@@ -219,4 +230,6 @@ MANIFEST_TEXT["C07"] = {"text": "exported runs, transforms, face IDs, orientatio
                         "note": "sampled programs of 2-4 instances; geometry checked at every corner of every triangle", "technique": PBT + " against a reference model of provenance (inputs + generated transforms)"}
 MANIFEST_TEXT["C20"] = {"text": "generated programs of C API calls mirrored call-for-call in C++; every result read back through the C accessors into exact-size buffers and compared bitwise with the C++ twin; storage is exactly <type>_size() bytes (or manifold_alloc_*), every object destructed/deleted once; allocations made inside C calls tracked by sanitizer malloc hooks and confirmed with LeakSanitizer; callbacks verify the user pointer; under ASan+UBSan",
                         "note": "sampled programs of 3-14 steps; covers every exported function group except none (see evidence counters fn:*)", "technique": PBT + " as a differential test against the C++ API"}
+MANIFEST_TEXT["C06"] = {"text": "generated shared lazy Manifolds/CrossSections/ExecutionContext used by 2-8 real threads running generated programs of const queries, copies, assignments, derived expressions, ID reservation and cancel/poll, in a ThreadSanitizer build (halt on first report) whose only threads are the client threads; per-op fingerprints compared with sampled serial executions; reserved ID ranges disjoint, fresh IDs unique",
+                        "note": "OS-produced schedules, sampled; race reports are schedule-dependent (replays retried 6-8 times)", "technique": PBT + " over thread programs with ThreadSanitizer as race oracle and a serial-execution reference model"}
 NOT_CLAIMED = {}
